@@ -93,7 +93,10 @@ def ckOp (cap : Option Nat) (hasHandler : Bool) (s : CkSt) (op : HOp) (o : HObs)
   if o.res = .blocked then
     (match op with
      | .drop _ => viol "C09" "dropping a handle blocked"
-     | _ => viol "C10" "a producer-side call blocked")
+     | _ =>
+       if o.evs.any (fun e => match e with | .enter _ _ => true | _ => false) then
+         viol "C10+C08" "a producer-side call ran the wrapped sink itself (a second consumer) and blocked in it"
+       else viol "C10" "a producer-side call blocked")
   else
   match op with
   | .emit h m len =>
